@@ -1,7 +1,7 @@
 (* C24 — Monitored item queues keep the right values and survive resizing.  Statements only. *)
 From Coq Require Import List ZArith Bool.
 Import ListNotations.
-From OV Require Import C24.Model C24.Proofs.
+From OV Require Import C24.Model C24.Proofs C24.History.
 Open Scope Z_scope.
 
 (* For every server maximum (0 included), every requested size/policy and EVERY history of samples, modify
@@ -75,3 +75,20 @@ Theorem C24_legacy_max0_refuted :
   size s = 0 /\ len (q (enqueue (enqueue (enqueue s 1) 2) 3)) = 3.
 Proof. exact legacy_max0_refuted. Qed.
 Print Assumptions C24_legacy_max0_refuted.
+
+(* Whole histories of samples (no modify / drain in between), any payload type:
+   discard-oldest keeps exactly the newest `size` of everything the queue was given ... *)
+Theorem C24_discard_oldest_keeps_newest : forall (A : Type) mx (s : st A) (l : list A),
+  inv mx s -> disc s = true ->
+  vals (q (feed_samples s l)) = glastn (Z.to_nat (size s)) (vals (q s) ++ l).
+Proof. intros A mx s l. apply discard_oldest_keeps_newest. Qed.
+Print Assumptions C24_discard_oldest_keeps_newest.
+
+(* ... and otherwise the first size-1 samples stay and the last slot holds the newest sample. *)
+Theorem C24_keep_oldest_replaces_newest : forall (A : Type) mx (s : st A) (l : list A),
+  inv mx s -> disc s = false -> q s = [] ->
+  vals (q (feed_samples s l)) =
+    if (length l <=? Z.to_nat (size s))%nat then l
+    else firstn (Z.to_nat (size s) - 1) l ++ glastn 1 l.
+Proof. intros A mx s l. apply keep_oldest_replaces_newest. Qed.
+Print Assumptions C24_keep_oldest_replaces_newest.
